@@ -746,3 +746,19 @@ VARIANTS += [
     V('C18-M20', 'M', ('C18',), SO, 'read_record', r'asyncio\.wait_for\(reader\.readuntil\(b.\\n.\), timeout\)', "asyncio.wait_for(reader.readuntil(b'\\\\n'), timeout or 0.1)", ('C18-10',)),
     V('C06-E22', 'E', ALL, SV, 'Server.call', r'fut = self\._enqueue\(x, timeout, backpressure\)', 'if timeout is None:\n            timeout = 60\n        fut = self._enqueue(x, timeout, backpressure)'),
 ]
+
+# ---------------------------------------------------------------------- refactor-level rewrites, fourth batch
+VARIANTS += [
+    V('G-rf-65', 'E', ALL, ST, 'async_fifo_stream.feed', r't = await func\(x, \*\*func_kwargs\)', 'coro = func(x, **func_kwargs)\n                    t = await coro', count=1),
+    V('G-rf-66', 'E', ALL, ST, 'async_fifo_stream', r'x, t = z\n', 'x = z[0]\n            t = z[1]\n'),
+    V('G-rf-67', 'E', ALL, ST, 'async_fifo_stream', r'for t in cancelled_tasks:\n\s+try:\n\s+await t\n\s+except \(asyncio\.CancelledError, Exception\):[^\n]*\n\s+pass', 'await asyncio.gather(*cancelled_tasks, return_exceptions=True)', note='loop of guarded awaits -> gather(return_exceptions=True)'),
+    V('G-rf-68', 'E', ALL, ST, 'fifo_stream', r'except BaseException:  # in particular, include GeneratorExit', 'except:  # noqa: E722'),
+    V('C01-M20', 'M', ('C01',), ST, 'Parmapper.__iter__', r'yield from fifo_stream\(', 'results = fifo_stream(', ('C01-6',), note='stream built but not yielded from'),
+    V('G-rf-69', 'E', ALL, ST, 'Parmapper.__iter__', r'yield from fifo_stream\((.*?\n            \))', r'results = fifo_stream(\1\n            yield from results', note='generator bound to a local, then yield from it'),
+    V('G-rf-70', 'E', ALL, ST, 'Parmapper.__iter__', r'def _work\(x, \*\*kwargs\):\n(\s+)return executor\.submit\(self\._func, x, loud_exception=False, \*\*kwargs\)', r'def _work(x, **kwargs):\n\1fut = executor.submit(self._func, x, loud_exception=False, **kwargs)\n\1return fut'),
+    V('G-rf-72', 'E', ALL, SV, 'AsyncServer._enqueue', r'if t <= 0:\n(\s+)raise ServerBacklogFull\(len\(pipeline\), perf_counter\(\) - t0\)\n', r'if not t > 0:\n\1raise ServerBacklogFull(len(pipeline), perf_counter() - t0)\n'),
+    V('G-rf-73', 'E', ALL, SV, 'Server.__exit__', r'if self\._onboard_thread is not None:', 'onboard = self._onboard_thread\n        if onboard is not None:'),
+    V('G-rf-74', 'E', ALL, SL, 'ProcessServlet._stop_workers', r'for w in self\._workers:', 'for w in list(self._workers):'),
+    V('G-rf-75', 'E', ALL, SL, 'ThreadServlet._stop_workers', r'for w in self\._workers:\n(\s+)w\.join\(\)', r'for worker in self._workers:\n\1worker.join()'),
+    V('G-rf-76', 'E', ALL, QU, 'IterableQueue.put_end', r'self\._applied_lids\.put\(z\)\n(\s+)self\.put\(None\)', r'token = z\n\1self._applied_lids.put(token)\n\1self.put(None)'),
+]
